@@ -29,7 +29,7 @@ EXPLANATION = (
 )
 ASSUMPTIONS = ["CPython ast parses /repo's source as the interpreter would",
                "the table of unordered-iteration sites with their commutativity argument in sa/rules/c08.py"]
-MIN_INSTANCES = {"R-08g": 4, "R-08a": 6, "R-08b": 3, "R-08c": 5, "R-08d": 3, "R-08e": 5, "R-08f": 2}
+MIN_INSTANCES = {"R-08h": 30, "R-08g": 4, "R-08a": 6, "R-08b": 3, "R-08c": 5, "R-08d": 3, "R-08e": 5, "R-08f": 2}
 
 
 def r08a(model, ctx):
@@ -140,6 +140,211 @@ def _run_once_ok(paths, var):
     return n > 0, n
 
 
+ASYNC = "amaranth/sim/_async.py"
+TRIGGER_REFS = [
+    # (function, reference, what it establishes, consequence of a deviation)
+    (f"{PYSIM}::_PyTriggerState.add_changed_waker.waker", """
+if self._broken:
+    return False
+self.activate()
+return not self._oneshot
+""", "a change activates the trigger; one-shot waits are dropped after firing, broken ones at once",
+     "the waker of a changed() trigger must activate the trigger on every change and stay registered exactly for multi-shot waits"),
+    (f"{PYSIM}::_PyTriggerState.add_edge_waker.waker", """
+if self._broken:
+    return False
+curr_bit = (curr >> trigger.bit) & 1
+next_bit = (next >> trigger.bit) & 1
+if curr_bit == next_bit or next_bit != trigger.polarity:
+    return True
+self._triggers_hit.add(trigger)
+self.activate()
+return not self._oneshot
+""", "fires only when the watched bit changes to the trigger's polarity; otherwise keeps waiting",
+     "an edge trigger must fire exactly when bit `trigger.bit` of the signal changes and its new value equals the polarity; "
+     "it must stay registered while waiting and record itself in _triggers_hit when it fires"),
+    (f"{PYSIM}::_PyTriggerState.add_delay_waker.waker", """
+if self._broken:
+    return
+self._triggers_hit.add(trigger)
+self.activate()
+""", "an elapsed delay is recorded as hit and activates the trigger", "a delay waker must record the trigger as hit and activate it"),
+    (f"{PYSIM}::_PyTriggerState.add_delay_waker", """
+def waker():
+    pass
+self._engine.state.set_delay_waker(trigger.interval.femtoseconds, waker)
+self._delay_wakers[waker] = trigger.interval.femtoseconds
+""", "the delay is armed with the trigger's own interval and remembered for re-arming",
+     "a delay trigger must be armed with trigger.interval.femtoseconds and remembered with the same interval"),
+    (f"{PYSIM}::_PyTriggerState.activate", """
+if self._combination._process.waits_on is self:
+    self._active.add(self)
+else:
+    self._broken = True
+""", "activation while the process is not waiting on this trigger marks it broken (missed event)",
+     "a trigger firing while its process is not waiting on it must be marked broken, not queued"),
+    (f"{PYSIM}::_PyTriggerState.compute_result", """
+result = []
+for trigger in self._combination._triggers:
+    if isinstance(trigger, (SampleTrigger, ChangedTrigger)):
+        value = self._engine.get_value(trigger.value)
+        if isinstance(trigger.shape, ShapeCastable):
+            result.append(trigger.shape.from_bits(value))
+        else:
+            result.append(value)
+    elif isinstance(trigger, (EdgeTrigger, DelayTrigger)):
+        result.append(trigger in self._triggers_hit)
+    else:
+        assert False
+self._result = tuple(result)
+""", "one result per trigger in declaration order: sampled value (through the shape) or whether the edge/delay fired",
+     "the awaited result must list, in the order of the combination, the current value of sampled/changed expressions and "
+     "whether each edge/delay trigger was hit"),
+    (f"{PYSIM}::_PyTriggerState.run", """
+self.compute_result()
+self._combination._process.runnable = True
+self._combination._process.waits_on = None
+self._triggers_hit.clear()
+for waker, interval_fs in self._delay_wakers.items():
+    self._engine.state.set_delay_waker(interval_fs, waker)
+""", "values are sampled before the process is made runnable; hits cleared; delays re-armed",
+     "running a trigger must sample the result first, then wake the process and clear the hit set (a stale hit is reported on "
+     "the next wait otherwise) and re-arm its delays"),
+    (f"{PYSIM}::_PyTriggerState.__await__", """
+self._result = None
+if self._broken:
+    raise BrokenTrigger
+yield self
+if self._broken:
+    raise BrokenTrigger
+return self._result
+""", "a broken trigger raises before and after the wait; otherwise the sampled result is returned",
+     "awaiting must raise BrokenTrigger for a missed event and return the result sampled by run()"),
+    (f"{PYSIM}::_PyTriggerState.__init__", """
+self._engine = engine
+self._combination = combination
+self._active = pending
+self._oneshot = oneshot
+self._result = None
+self._broken = False
+self._triggers_hit = set()
+self._delay_wakers = dict()
+for trigger in combination._triggers:
+    if isinstance(trigger, SampleTrigger):
+        pass
+    elif isinstance(trigger, ChangedTrigger):
+        self.add_changed_waker(trigger)
+    elif isinstance(trigger, EdgeTrigger):
+        self.add_edge_waker(trigger)
+    elif isinstance(trigger, DelayTrigger):
+        self.add_delay_waker(trigger)
+    else:
+        assert False
+""", "every trigger kind registers its own kind of waker; samples register none",
+     "each trigger of a combination must register the waker of its kind (a sample causes no wake-up)"),
+    (f"{PYSIM}::_PyEngineState.commit", """
+converged = True
+for state in self.pending:
+    if changed is not None:
+        if isinstance(state, _PyMemoryState):
+            for addr in state.write_queue:
+                changed.add(_PyMemoryChange(state, addr))
+        elif isinstance(state, _PySignalState):
+            changed.add(state)
+        else:
+            assert False
+    if state.commit():
+        converged = False
+self.pending.clear()
+return converged
+""", "every pending slot is committed; not converged iff some commit changed a value; pending cleared",
+     "the engine commit must commit every pending signal/memory, report convergence only when none changed, and clear the pending set"),
+    (f"{PYSIM}::_PyEngineState.get_signal", """
+try:
+    return self.signals[signal]
+except KeyError:
+    index = len(self.slots)
+    self.slots.append(_PySignalState(signal, self.pending))
+    self.signals[signal] = index
+    return index
+""", "a signal gets the index of the slot appended for it", "a new signal's slot index must be the position of the slot appended for it"),
+    (f"{PYSIM}::_PyEngineState.get_memory", """
+try:
+    return self.memories[memory]
+except KeyError:
+    index = len(self.slots)
+    self.slots.append(_PyMemoryState(memory, self.pending))
+    self.memories[memory] = index
+    return index
+""", "a memory gets the index of the slot appended for it", "a new memory's slot index must be the position of the slot appended for it"),
+    (f"{ASYNC}::AsyncProcess.reset", """
+self.runnable = True
+self.critical = not self.background
+self.waits_on = None
+self.coroutine = self.constructor(self.context)
+self.first_await = True
+""", "a reset process is runnable, re-created, critical unless background", "resetting must re-create the coroutine and make it runnable"),
+    (f"{ASYNC}::TickTrigger._collect_trigger", """
+clk_polarity = (1 if self._domain.clk_edge == "pos" else 0)
+if self._domain.async_reset and self._domain.rst is not None:
+    return (TriggerCombination(self._engine, self._process)
+        .edge(self._domain.clk, clk_polarity)
+        .edge(self._domain.rst, 1)
+        .sample(self._domain.rst)
+        .sample(*self._sampled))
+else:
+    return (TriggerCombination(self._engine, self._process)
+        .edge(self._domain.clk, clk_polarity)
+        .sample(Const(0))
+        .sample(Const(0) if self._domain.rst is None else self._domain.rst)
+        .sample(*self._sampled))
+""", "active clock edge (by clk_edge), rising asynchronous reset, reset level and the user's samples, in that order",
+     "a tick must wait for the domain's active clock edge (and the rising edge of an asynchronous reset), and sample the reset "
+     "and the user's expressions in the positions __await__ unpacks"),
+    (f"{ASYNC}::TickTrigger.__await__", """
+trigger = self._engine.add_trigger_combination(self._collect_trigger(), oneshot=True)
+clk_edge, rst_edge, rst_sample, *values = yield from trigger.__await__()
+return (clk_edge, bool(rst_edge or rst_sample), *values)
+""", "one-shot wait returning (clk_edge, rst_active, *samples)", "a one-shot tick wait must return the clock hit, whether reset is active, and the samples"),
+    (f"{ASYNC}::TickTrigger.repeat", """
+count = operator.index(count)
+if count <= 0:
+    raise ValueError()
+tick = self.__aiter__()
+for _ in range(count):
+    clk, rst, *values = await tick.__anext__()
+    if rst:
+        raise DomainReset
+    assert clk
+return tuple(values)
+""", "waits exactly `count` ticks, raising DomainReset on reset, returns the last samples",
+     "repeat(n) must await exactly n ticks of a multi-shot iterator and raise DomainReset when the domain is reset"),
+    (f"{ASYNC}::EdgeTrigger.__init__", """
+cast_signal = Value.cast(signal)
+if isinstance(cast_signal, Signal) and len(cast_signal) == 1:
+    self.signal, self.bit = cast_signal, 0
+elif (isinstance(cast_signal, Slice) and len(cast_signal) == 1 and isinstance(cast_signal.value, Signal)):
+    self.signal, self.bit = cast_signal.value, cast_signal.start
+else:
+    raise TypeError()
+if polarity not in (0, 1):
+    raise ValueError()
+self.polarity = polarity
+""", "a one-bit signal watches bit 0, a one-bit slice of a signal watches bit `start` of that signal",
+     "an edge trigger on s[k] must watch bit k of s; on a one-bit signal bit 0"),
+]
+
+
+def r08h(model, ctx):
+    """the trigger machinery through which every testbench and process observes the design (pysim._PyTriggerState, the
+    engine's commit and slot allocation, TickTrigger, EdgeTrigger, AsyncProcess.reset): each function is compared with its
+    reference semantics by path summary (rules/reflib.py)"""
+    from .reflib import ref_rule, run_ref_file
+    for ref, text, fact, why in TRIGGER_REFS:
+        ref_rule(model, ctx, "R-08h", ref, text, fact, why)
+    run_ref_file(model, ctx, "R-08h", "c08_sim")
+
+
 def r08g(model, ctx):
     """the wakers that compiled processes register on signals and memories are persistent: the waker list keeps exactly the
     wakers that return True, so every path of these closures must return True (a waker that falls off the end is dropped
@@ -187,6 +392,9 @@ def r08b(model, ctx):
     pl = g.stmt[proc[0]]
     var = unparse(pl.target)
     ok, _n = _run_once_ok(_loop_paths(model, pl), var)
+    ctx.check(ok, R, "step_design:run-once", "each runnable process runs once, flag cleared before run()",
+              "a runnable process must have its flag cleared before run() so that a wake-up during run() is not lost",
+              f"{PYSIM}:{pl.lineno}")
     # trigger: sample before marking runnable
     fr = model.func(f"{PYSIM}::_PyTriggerState.run")
     g2 = CFG(fr, inline_closures=False)
@@ -482,7 +690,7 @@ def _only(rule_fn, keep):
 
 _merge = lambda c: c.startswith("_PySignalState") or c.startswith("_PyMemoryState") or c.startswith("_eval_assign_inner:Signal")
 
-RULES = [("R-08g", r08g), ("R-08a", r08a), ("R-08b", r08b), ("R-08c", r08c), ("R-08d", r08d), ("R-08e", r08e),
+RULES = [("R-08h", r08h), ("R-08g", r08g), ("R-08a", r08a), ("R-08b", r08b), ("R-08c", r08c), ("R-08d", r08d), ("R-08e", r08e),
          ("R-02g", _only(c02.r02g, _merge)), ("R-02f", _only(c02.r02f, lambda c: c.startswith("_FragmentCompiler"))),
          ("R-05a", c05.r05a),
          # two processes of one domain (clocked, asynchronous reset) may run in the same delta cycle: they must write the
